@@ -131,4 +131,15 @@ def discharge_all(obs, ledger, budget=30, smoke_budget=2, thorough=False, jobs=N
             results.append(r)
             if progress:
                 progress(i, r)
+    # retry round: what stayed undecided while all cores were busy is re-tried with a larger budget on a quiet machine
+    retry = [i for i, r in enumerate(results) if r['kind'] != 'smoke' and r['verdict'] not in ('unsat', 'sat')]
+    if retry and len(retry) <= 64:
+        with ThreadPoolExecutor(max_workers=min(jobs, 8)) as pool:
+            futs = {i: pool.submit(discharge_one, obs[i], budget * 4, smoke_budget, ledger.get(obs[i]['name']), True) for i in retry}
+            for i, f in futs.items():
+                r = f.result()
+                r['tries'] = results[i]['tries'] + [('retry-round', '', 0)] + r['tries']
+                r['time'] += results[i]['time']
+                results[i] = r
+                if progress: progress(i, r)
     return results
